@@ -193,8 +193,10 @@ class Check:
             "wall_s": round(time.time() - self.t0, 2),
             "violations": reported,
         }
-        os.makedirs(os.path.join(VERIF, "evidence"), exist_ok=True)
-        with open(os.path.join(VERIF, "evidence", f"{self.pid}.json"), "w") as fh:
+        # evidence/ holds runs against /repo only; runs against another tree (POUPOOL_REPO) go to .cache/evidence_alt
+        evdir = os.path.join(VERIF, "evidence") if os.path.realpath(REPO) == "/repo" else os.path.join(CACHE, "evidence_alt")
+        os.makedirs(evdir, exist_ok=True)
+        with open(os.path.join(evdir, f"{self.pid}.json"), "w") as fh:
             json.dump(ev, fh, indent=1, default=str)
         for line in out:
             print(line)
